@@ -57,12 +57,62 @@ DESIGN_REF = "DESIGN.md §4 C05"
 N_QUICK, N_THOROUGH = 150, 1500
 
 
+def gxx_view(c: Case):
+    """(per-event outcomes, job outcomes per event) as g++ ran them, when the g++ oracle was attached"""
+    o = getattr(c, "gxx_job", None)
+    if o is None:
+        return None
+    per = list(c.gxx_exec)
+    job = [cgroup.gxx_outcome(o, i) for i in range(len(c.events))]
+    return per, job
+
+
 def judge(ctx, c: Case, c_rev: Case):
     a, ar = c.answer, c_rev.answer
     if a is None or ar is None or "bad" in a or "bad" in ar:
         return
     per = a["exec"]
     job = a["job"]
+    how = "translate `source` (with the synthetic metadata of tools/qgen.py) on `backend`; run the emitted per-event code over `events` in one job and one event at a time"
+    gv = gxx_view(c)
+    if gv is not None:
+        # the Lean semantics cannot interpret this program (unrecognised statement): the real text is compiled
+        # with g++ against the mock event data model and run both ways (the mock's job continues after a fault,
+        # so the comparison is event by event)
+        ctx.count("decided-by:g++(job vs per-event)")
+        gper, gjob = gv
+        if any(cgroup.fault_class(x) == "does-not-compile" for x in gper + gjob):
+            ctx.count("g++:does-not-compile (C02's clause)")
+            return
+        for i, (p, j) in enumerate(zip(gper, gjob)):
+            if cgroup.fault_class(p) != cgroup.fault_class(j) or not cgroup.rows_num_eq(p.get("num", []), j.get("num", [])):
+                ctx.violation(
+                    key="job:" + c.key(),
+                    what=f"event {i} writes different rows inside one job than alone (g++ run of the emitted code: state carried across events)",
+                    case=c.to_json(),
+                    observed={"event": i, "in_job": j, "alone": p, "body": c.result["query"]},
+                    how=how + " (compiled with g++ against tools/cppmock.py)",
+                )
+                return
+        gr = gxx_view(c_rev)
+        if gr is not None:
+            fwd = sorted(json_key(r) for j in gjob for r in j.get("num", []))
+            rev = sorted(json_key(r) for j in gr[1] for r in j.get("num", []))
+            if fwd != rev:
+                ctx.violation(key="perm:" + c.key(), what="processing the events in reverse order gives a different multiset of rows (g++ run)", case=c.to_json(), observed={"forward": gjob, "reverse": gr[1], "body": c.result["query"]}, how=how)
+        return
+    # a variable read before anything was assigned to it in this event: its value is whatever an earlier event
+    # (or the stack) left there — the modelled semantics has no value for it
+    for i, r in enumerate(per):
+        if str(r.get("fault", "")).startswith("stuck:unbound"):
+            ctx.violation(
+                key="uninit:" + c.key(),
+                what=f"event {i}: the emitted code reads `{r['fault'].split(':')[-1]}` before assigning it in this event (declared without initial value): the row depends on what earlier events left in memory",
+                case=c.to_json(),
+                observed={"event": i, "per_event": r, "body": c.result["query"]},
+                how=how,
+            )
+            return
     # the property, on the implementation's program: job == concatenation of per-event runs
     exp_rows, exp_fault = [], None
     for r in per:
@@ -77,7 +127,7 @@ def judge(ctx, c: Case, c_rev: Case):
             what="rows written by one job over the events differ from the rows each event writes alone (state carried across events)",
             case=c.to_json(),
             observed={"job": job, "per_event": per, "body": c.result["query"]},
-            how="translate `source` (with the synthetic metadata of tools/qgen.py) on `backend`; run the emitted per-event code over `events` in one job and one event at a time",
+            how=how,
         )
         return
     # order independence (multiset of rows), when nothing faults
@@ -110,10 +160,19 @@ def json_key(r):
     return json.dumps(r)
 
 
+def attach(cases, revs):
+    """g++ oracle for the programs the Lean semantics cannot interpret"""
+    need = [(c, r) for c, r in zip(cases, revs) if c.result and c.result.get("ok") and cgroup.needs_gxx(c)]
+    if need:
+        cgroup.attach_gxx([c for c, _ in need], per_event=True, job=True)
+        cgroup.attach_gxx([r for _, r in need], per_event=False, job=True)
+
+
 def gen_cases(ctx, n):
     cases = []
     for i in range(n):
-        c = cgroup.gen_case(ctx.rng, backend=cgroup.P.BACKENDS[i % 3], nevents=5, empty_bias=0.3)
+        # every 6th case: vector columns next to an unguarded First (an event that cannot produce its row must not leave half-built columns behind)
+        c = cgroup.gen_case(ctx.rng, backend=cgroup.P.BACKENDS[i % 3], nevents=5, empty_bias=0.3, family="first_mix" if i % 6 == 5 else "top")
         cases.append(c)
     return cases
 
@@ -127,6 +186,7 @@ def run_stream(ctx, cases, stream):
         revs.append(r)
     cgroup.run_cases(ctx, cases, with_query=True)
     cgroup.run_cases(ctx, revs, with_query=False)
+    attach(cases, revs)
     for c, r in zip(cases, revs):
         ctx.count(f"stream:{stream}")
         if not c.result["ok"]:
@@ -148,6 +208,7 @@ def known_stream(ctx):
         r.result, r.package = c.result, c.package
         cgroup.run_cases(ctx, [c], with_query=False)
         cgroup.run_cases(ctx, [r], with_query=False)
+        attach([c], [r])
         before = len(ctx.violations)
         sub = _Collector(ctx)
         judge(sub, c, r)
@@ -190,7 +251,7 @@ def search(ctx, broken):
     best = None
     cases = []
     for i in range(400):
-        cases.append(cgroup.gen_case(ctx.rng, backend=cgroup.P.BACKENDS[i % 3], nevents=8, empty_bias=0.35))
+        cases.append(cgroup.gen_case(ctx.rng, backend=cgroup.P.BACKENDS[i % 3], nevents=8, empty_bias=0.35, family="first_mix" if i % 4 == 3 else "top"))
     sub = _Collector(ctx)
     revs = []
     for c in cases:
@@ -200,6 +261,7 @@ def search(ctx, broken):
         revs.append(r)
     cgroup.run_cases(ctx, cases, with_query=False)
     cgroup.run_cases(ctx, revs, with_query=False)
+    attach(cases, revs)
     for c, r in zip(cases, revs):
         if not c.result["ok"]:
             continue
@@ -220,6 +282,7 @@ def replay(ctx, rep) -> int:
     r.result, r.package = c.result, c.package
     cgroup.run_cases(ctx, [c], with_query=False)
     cgroup.run_cases(ctx, [r], with_query=False)
+    attach([c], [r])
     sub = _Collector(ctx)
     judge(sub, c, r)
     print("\n".join(c.result.get("query", [])))
